@@ -11,6 +11,7 @@ CONSTANTS
   InitAttG = {"s1", "s5"}
   InitOnMe = {"s3", "s4"}
   MeSessions = {}
+  SubSessions = {"s1", "s2", "s3"}
   LeaveSessions = {"s1", "s2"}
   DiscSessions = {"s2", "s4"}
   PubSessions = {"s1"}
